@@ -34,3 +34,18 @@ impl vstd::std_specs::convert::FromSpecImpl<StorageError> for AkdError {
     open spec fn obeys_from_spec() -> bool { true }
     open spec fn from_spec(e: StorageError) -> Self { AkdError::Storage(e) }
 }
+
+// ---- C12: a batch prepared against one epoch is applied only if the epoch record, read again once this call's transaction has begun,
+// still shows that epoch (knowledge tokens of one call; what the tokens cannot say is the ORDER of begin and re-read - both are inside
+// the verified segment, in that order in the text)
+pub uninterp spec fn txn_begun<S: Database>(st: &StorageManager<S>) -> bool;
+// "the value a came from a read of the epoch record that bypassed the cache, made by a call whose transaction had begun"
+pub uninterp spec fn fresh_epoch_read<S: Database>(st: &StorageManager<S>, a: Azks) -> bool;
+// permission to start writing the batch prepared for epoch e
+pub uninterp spec fn epoch_confirmed(e: u64) -> bool;
+#[verifier::external_body]
+pub proof fn grant_epoch_confirmed<S: Database>(st: &StorageManager<S>, a: Azks, e: u64)
+    requires fresh_epoch_read(st, a), a.latest_epoch == e
+    ensures epoch_confirmed(e)
+{}
+pub mod errors { pub use crate::AkdError; }
